@@ -255,6 +255,9 @@ C12_FollowLeader == bad.follow = {}
 C12_FollowLeaderRealTime == bad.realtime = {}
 C12_RefreshWithinTTL == bad.refresh = {}
 C12_CacheFilter == bad.filter = {}
+\* calls nothing is wrong with (the cluster is reachable and its metadata has been loaded) return their own answer:
+\* Metadata from the cache, routed calls from the right broker
+C12_HealthyCallSucceeds == bad.nexterr = {}
 \* C06 (Transport part)
 C06t_OwnResponse == bad.own = {}
 C06t_NoReuseAfterFailure == bad.reuse = {}
